@@ -55,6 +55,11 @@ Section SrpSpec.
     sha256 (XOR (sha256 (num2048 p)) (sha256 (num2048 g)) ++ sha256 salt1 ++ sha256 salt2 ++
             num2048 g_a ++ num2048 g_b ++ k_a).
 
+  (* g_b must be a group element: 0 < g_b < p.  Classic SRP-6a obliges the client to abort when
+     B mod p = 0, and TDLib (PasswordManager) refuses srp_B unless 0 < B < p; the formulas below
+     are meant for such B only. *)
+  Definition spec_valid_B (p g_b : Z) : Prop := 0 < g_b < p.
+
   (* the answer (A, M1) *)
   Definition spec_answer (password salt1 salt2 : list Z) (p g g_b a : Z) : list Z * list Z :=
     let g_a := spec_g_a p g a in
